@@ -44,3 +44,18 @@ pub mod prelude {
   #[cfg(target_arch = "wasm32")]
   pub use web_time::{Duration, Instant};
 }
+
+/// Verification hooks (only with `--cfg rxrust_verif`): named yield points at which a harness
+/// may run another party's step, to replay one specific interleaving deterministically.
+#[cfg(rxrust_verif)]
+pub mod verif_hooks {
+  pub static mut YIELD: Option<fn(&'static str)> = None;
+
+  #[inline]
+  pub fn yield_point(name: &'static str) {
+    #[allow(static_mut_refs)]
+    if let Some(f) = unsafe { YIELD } {
+      f(name)
+    }
+  }
+}
